@@ -141,7 +141,8 @@ def build_world(prog, sched):
     elif kind in ('multi', 'multi-yield'):
         # (a wire sub-port serialises to bytes and drops `time`, the only attribute of the real-time kind)
         subs = [ports_mod.EchoPort(), ports_mod.EchoPort() if prog.get('sysex') == 'rt' else WirePort('w2')]
-        port = ports_mod.MultiPort(subs, yield_ports=(kind == 'multi-yield'))
+        # (round 13: the sub-ports given as a one-shot iterator - the constructor must keep a list of them)
+        port = ports_mod.MultiPort(iter(subs) if kind == 'multi-yield' else subs, yield_ports=(kind == 'multi-yield'))
         send = port.send
         copies = 2
     elif kind == 'pqueue':
